@@ -492,20 +492,58 @@ func (k *Kube) serveListWatch(req *http.Request, kind string, watch bool, fieldS
 	time.Sleep(time.Millisecond)
 	k.mu.Lock()
 	rv := strconv.FormatInt(k.rev, 10)
+	// selectors as the real server applies them (the informers of today's code use none but the two phase terms)
+	var lsel labels.Selector
+	if ls := req.URL.Query().Get("labelSelector"); ls != "" {
+		if parsed, err := labels.Parse(ls); err == nil {
+			lsel = parsed
+		} else {
+			return statusResp(req, 400, metav1.StatusReasonBadRequest, "sim: bad labelSelector: "+err.Error(), 0), nil
+		}
+	}
+	fieldOK := func(name, nodeName, phase string) bool {
+		for _, term := range strings.Split(fieldSel, ",") {
+			term = strings.TrimSpace(term)
+			if term == "" {
+				continue
+			}
+			neg := strings.Contains(term, "!=")
+			kv := strings.SplitN(strings.Replace(strings.Replace(term, "!=", "=", 1), "==", "=", 1), "=", 2)
+			if len(kv) != 2 {
+				continue
+			}
+			var have string
+			switch kv[0] {
+			case "metadata.name":
+				have = name
+			case "spec.nodeName":
+				have = nodeName
+			case "status.phase":
+				have = phase
+			default:
+				continue
+			}
+			if (have == kv[1]) == neg {
+				return false
+			}
+		}
+		return true
+	}
 	if kind == "nodes" {
 		l := &v1.NodeList{TypeMeta: metav1.TypeMeta{Kind: "NodeList", APIVersion: "v1"}, ListMeta: metav1.ListMeta{ResourceVersion: rv}}
 		for _, n := range k.sortedNodeNames() {
-			l.Items = append(l.Items, *k.nodes[n])
+			nd := k.nodes[n]
+			if lsel != nil && !lsel.Matches(labels.Set(nd.Labels)) || !fieldOK(nd.Name, "", "") {
+				continue
+			}
+			l.Items = append(l.Items, *nd)
 		}
 		return jsonResp(req, 200, l), nil
 	}
 	l := &v1.PodList{TypeMeta: metav1.TypeMeta{Kind: "PodList", APIVersion: "v1"}, ListMeta: metav1.ListMeta{ResourceVersion: rv}}
 	for _, n := range k.sortedPodNames() {
 		p := k.pods[n]
-		if strings.Contains(fieldSel, "status.phase!=Succeeded") && p.Status.Phase == v1.PodSucceeded {
-			continue
-		}
-		if strings.Contains(fieldSel, "status.phase!=Failed") && p.Status.Phase == v1.PodFailed {
+		if lsel != nil && !lsel.Matches(labels.Set(p.Labels)) || !fieldOK(p.Name, p.Spec.NodeName, string(p.Status.Phase)) {
 			continue
 		}
 		l.Items = append(l.Items, *p)
